@@ -29,6 +29,7 @@ ATTACH = {
     "h_co.rs": ("src/core/compile.rs", "verif_co"),
     "h_io.rs": ("src/util/io.rs", "verif_io"),
     "h_area.rs": ("src/core/area.rs", "verif_area"),
+    "h_st.rs": ("src/core/state.rs", "verif_st"),
 }
 MODPATH = {
     "h_bn.rs": "number::big_number::verif_bn",
@@ -39,6 +40,7 @@ MODPATH = {
     "h_co.rs": "core::compile::verif_co",
     "h_io.rs": "util::io::verif_io",
     "h_area.rs": "core::area::verif_area",
+    "h_st.rs": "core::state::verif_st",
 }
 
 CBMC_FLAGS = ["--no-malloc-may-fail", "--no-undefined-shift-check", "--no-signed-overflow-check",
@@ -359,6 +361,14 @@ def run_cbmc(goto, h, extra=None, timeout=None):
     if us:
         cmd += ["--unwindset", us]
     cmd += ["--json-ui"] + (extra or []) + [goto]
+    if extra and "--trace" in extra:
+        # the counterexample run keeps every assignment: with formula slicing, nondeterministic
+        # inputs that do not influence the failing property vanish from the trace and the
+        # remaining values would be replayed out of order
+        if "--verif-keep-slice" in cmd:
+            cmd = [c for c in cmd if c != "--verif-keep-slice"]
+        else:
+            cmd = [c for c in cmd if c != "--slice-formula"]
     to = float(timeout or h["timeout"])
     t0 = time.time()
     try:
@@ -458,14 +468,21 @@ def verify_one(h, table, outdir):
                                        (f0.get("sourceLocation") or {}).get("line", "?"))
         res["n_failed"] = len(fails)
         # second run: trace for this property only
-        rc2, out2, wall2, _ = run_cbmc(goto, h, extra=["--trace", "--property", f0["property"]],
-                                       timeout=float(h["timeout"]) * 2)
         vals = None
-        if isinstance(rc2, int) and out2:
-            _, results2, _ = parse_cbmc_json(out2)
-            for r in results2:
-                if r.get("property") == f0["property"] and r.get("trace"):
-                    vals = extract_values(r["trace"])
+        # counterexample run: first without formula slicing (complete input sequence; needs more
+        # memory), then, if that did not produce a trace, with slicing
+        for attempt in ("full", "sliced"):
+            h2 = dict(h, mem=str(float(h["mem"]) * 3))
+            extra = ["--trace", "--property", f0["property"]] + (["--verif-keep-slice"] if attempt == "sliced" else [])
+            rc2, out2, wall2, _ = run_cbmc(goto, h2, extra=extra, timeout=float(h["timeout"]) * 2)
+            if isinstance(rc2, int) and out2:
+                _, results2, _ = parse_cbmc_json(out2)
+                for r in results2:
+                    if r.get("property") == f0["property"] and r.get("trace"):
+                        vals = extract_values(r["trace"])
+            res["trace_run"] = "%s rc=%s" % (attempt, rc2)
+            if vals is not None:
+                break
         res["cex_values"] = vals
         return res
     if unwind:
@@ -661,7 +678,7 @@ def main():
             attach.append(f)
     # harness modules may use helpers of other harness modules
     deps = {"h_ex.rs": ["h_num.rs"], "h_opt.rs": ["h_num.rs", "h_ex.rs"], "h_co.rs": ["h_num.rs"],
-            "h_io.rs": [], "h_pa.rs": [], "h_area.rs": ["h_num.rs"]}
+            "h_io.rs": [], "h_pa.rs": [], "h_area.rs": ["h_num.rs"], "h_st.rs": ["h_num.rs", "h_ex.rs"]}
     for f in list(attach):
         for d in deps.get(f, []):
             if d not in attach and os.path.exists(os.path.join(HARN, d)):
